@@ -289,7 +289,7 @@ Section TrainLoop.
       NoDup (map e_node (unfrozen s (model_params s))) /\ gd_pre s (model_params s).
   Proof.
     intros s ((Hg & Hr) & Hp & Hnd). split.
-    - unfold unfrozen. apply NoDup_map_filter. exact Hnd.
+    - apply unfrozen_nodup.
     - intros h p g Hh Hparr Hgr.
       apply h_arr_some in Hparr. destruct Hparr as (nd & Hn & ->).
       apply grad_of_some in Hgr. destruct Hgr as (nd' & Hn' & Hgr).
@@ -300,28 +300,18 @@ Section TrainLoop.
   Qed.
 
   (** ids of the returned handles: old ids of the frozen parameters, fresh ids otherwise *)
-  Lemma gd_out_ids : forall (s : state) ps b0 b,
-      (forall h, In h ps -> e_node h < b0) -> b0 <= b ->
-      NoDup (map e_node ps) ->
-      NoDup (map e_node (gd_out s b ps)) /\
-      forall j, In j (map e_node (gd_out s b ps)) -> In j (map e_node ps) \/ b <= j.
+  Lemma gd_out_f_ids : forall (pf : list (handle * bool)) b0 b,
+      (forall p, In p pf -> e_node (fst p) < b0) -> b0 <= b ->
+      NoDup (map e_node (map fst pf)) ->
+      NoDup (map e_node (gd_out_f b pf)) /\
+      forall j, In j (map e_node (gd_out_f b pf)) -> In j (map e_node (map fst pf)) \/ b <= j.
   Proof.
-    intros s ps b0. induction ps as [|h ps IH]; intros b Hlt Hb Hnd.
+    intros pf b0. induction pf as [|[h fb] pf IH]; intros b Hlt Hb Hnd.
     - simpl. split; [constructor | intros j []].
-    - inversion Hnd as [|? ? Hnin Hnd']; subst.
-      assert (Hlt' : forall h', In h' ps -> e_node h' < b0) by (intros h' Hh'; apply Hlt; right; exact Hh').
-      assert (Hh : e_node h < b0) by (apply Hlt; left; reflexivity).
-      assert (Hcase : gd_out s b (h :: ps) = mkh b true true :: gd_out s (S b) ps \/
-                      gd_out s b (h :: ps) = h :: gd_out s b ps).
-      { simpl. destruct (h_node s h) as [nd|]; [destruct (n_grad nd) |]; auto. }
-      destruct Hcase as [Hc | Hc]; rewrite Hc; cbn [map e_node mkh].
-      + destruct (IH (S b) Hlt' (le_S _ _ Hb) Hnd') as [IH1 IH2]. split.
-        * constructor; [| exact IH1]. intro Hin. destruct (IH2 b Hin) as [Hin' | Hge]; [| lia].
-          apply in_map_iff in Hin'. destruct Hin' as (h' & He & Hin').
-          specialize (Hlt' h' Hin'). lia.
-        * intros j [Hj | Hj]; [right; lia |]. destruct (IH2 j Hj) as [Hin | Hge].
-          -- left. right. exact Hin.
-          -- right. lia.
+    - cbn [map fst] in Hnd. inversion Hnd as [|? ? Hnin Hnd']; subst.
+      assert (Hlt' : forall p, In p pf -> e_node (fst p) < b0) by (intros p Hp; apply Hlt; right; exact Hp).
+      assert (Hh : e_node h < b0) by (apply (Hlt (h, fb)); left; reflexivity).
+      destruct fb; cbn [gd_out_f map fst e_node mkh].
       + destruct (IH b Hlt' Hb Hnd') as [IH1 IH2]. split.
         * constructor; [| exact IH1]. intro Hin. destruct (IH2 _ Hin) as [Hin' | Hge].
           -- apply Hnin. exact Hin'.
@@ -329,6 +319,28 @@ Section TrainLoop.
         * intros j [Hj | Hj]; [left; left; exact Hj |]. destruct (IH2 j Hj) as [Hin | Hge].
           -- left. right. exact Hin.
           -- right. exact Hge.
+      + destruct (IH (S b) Hlt' (le_S _ _ Hb) Hnd') as [IH1 IH2]. split.
+        * constructor; [| exact IH1]. intro Hin. destruct (IH2 b Hin) as [Hin' | Hge]; [| lia].
+          apply in_map_iff in Hin'. destruct Hin' as (h' & He & Hin').
+          apply in_map_iff in Hin'. destruct Hin' as (p & Hp & Hin'). subst h'.
+          specialize (Hlt' p Hin'). lia.
+        * intros j [Hj | Hj]; [right; lia |]. destruct (IH2 j Hj) as [Hin | Hge].
+          -- left. right. exact Hin.
+          -- right. lia.
+  Qed.
+
+  (** ids of the returned handles: old ids of the frozen parameters, fresh ids otherwise *)
+  Lemma gd_out_ids : forall (s : state) ps b0 b,
+      (forall h, In h ps -> e_node h < b0) -> b0 <= b ->
+      NoDup (map e_node ps) ->
+      NoDup (map e_node (gd_out s b ps)) /\
+      forall j, In j (map e_node (gd_out s b ps)) -> In j (map e_node ps) \/ b <= j.
+  Proof.
+    intros s ps b0 b Hlt Hb Hnd. unfold gd_out.
+    assert (Hfst : map fst (flagged s ps) = ps) by (unfold flagged; apply map_fst_combine_flags).
+    destruct (gd_out_f_ids (flagged s ps) b0 b) as [H1 H2]; [| exact Hb | rewrite Hfst; exact Hnd |].
+    - intros p Hp. apply Hlt. rewrite <- Hfst. apply in_map. exact Hp.
+    - rewrite Hfst in H2. split; assumption.
   Qed.
 
   (** what [model_update] does to one parameter: position [i] of the layers' parameter list *)
@@ -381,12 +393,13 @@ Section TrainLoop.
       destruct (n_grad nd2) as [g|] eqn:Hg.
       - assert (Hgo : grad_of s2 h = Some g) by (apply grad_of_some; eauto).
         assert (Harr : h_arr s2 h = Some (pay_arr (n_pay nd2))) by (apply h_arr_some; eauto).
-        destruct (Hunf i h _ g Hi Harr Hgo) as (Ho & Hnew). cbv zeta in Ho, Hnew.
+        destruct (Hunf i h _ g Hi Harr Hgo (nodup_first_occ e_node _ i h Hnd Hi)) as (Ho & Hnew).
+        cbv zeta in Ho, Hnew.
         eexists. split; [exact Ho |]. cbn [e_node e_tracked e_keep mkh].
         split; [lia |]. split; [reflexivity |]. split; [reflexivity |].
         split; [exact Hnew |].
-        apply (Hclr h nd2); [| exact Hn]. apply in_unfrozen. split; [| eauto].
-        eapply nth_error_In. exact Hi.
+        apply (Hclr h nd2); [| exact Hn]. rewrite (unfrozen_nodup_eq s2 _ Hnd). apply filter_In.
+        split; [eapply nth_error_In; exact Hi | unfold has_grad; rewrite Hgo; reflexivity].
       - assert (Hgo : grad_of s2 h = None) by (unfold grad_of; rewrite Hn; exact Hg).
         destruct (Hfro i h Hi Hgo) as (Ho & Hsame). split; [exact Ho |]. apply Hsame. exact Hn. }
     assert (Hgd3 : good s3) by (apply (model_update_good s2 s3 Hgd Hmu)).
